@@ -153,10 +153,41 @@ def _run_replay(ctx):
         ctx.harness(["cmdargs", "rerun", "--in", ctx.path("ev.ndjson"), "--out", ctx.path("trace.ndjson")])
         res = _validate_trace(ctx, ctx.path("trace.ndjson"), "CommandArgsTrace (replayed event)")
         _report_trace_bad(ctx, res, vlib.read_ndjson(ctx.path("trace.ndjson")))
+    elif payload["kind"] in ("replay", "trace"):
+        import core_common as cc
+        return cc.replay_core(ctx, DISPATCH)
     else:
         raise vlib.MachineryError("unknown replay payload kind %r" % payload.get("kind"))
     ctx.cover(replayed=1, states=sum(x["distinct"] for x in ctx.tlc_runs), transitions=sum(x["generated"] for x in ctx.tlc_runs),
               traces_validated_against_impl=1, samples=[payload.get("text") or _s(payload["event"]["text"])])
+
+
+def _dispatch_scope(field, exp, got, info):
+    """This stage owns the handler invocation log (which handler, how often, with which arguments)
+    and the result of the calls that dispatch a command or poll a pending one."""
+    if info["after_end"]:
+        return False
+    kinds = {x.get("k") for x in (exp, got) if isinstance(x, dict)}
+    return field == "ccalls" or (field == "out" and (info.get("pend") or bool(kinds & {"waiting", "error"})))
+
+
+# "reaches the handler registered under `name`, ONCE, with its arguments" over histories: the same
+# command statement dispatched again and again while state changes, commands that stay pending at
+# the head of an option body, a host handler under the name of the built-in - decided on the runner
+# specification with the shared pipeline of checks/core_common.py
+DISPATCH = dict(
+    sig="dispatch", scope=_dispatch_scope, merge=True,
+    sc=dict(family="dispatch", n=(100, 1200), mc=dict(max_calls=12, max_polls=2, after_end=0), mc_thorough=dict(max_calls=14),
+            invariants=["FlowRefinesSem", "PendingNextIsNoOp"]),
+    cs=[dict(family="dispatch", n=(40, 500), paths=(3, 5), calls=40,
+             label="YarnTrace: command statements dispatched repeatedly, pending at the head of option bodies")],
+    nontrivial=lambda c: sum(1 for b in c["bodies"] for s in b if s["k"] == "cmd" and len(s["elems"]) > 1) >= 2,
+    rule="programs of the dispatch family (the start node runs three times; most statements are commands, also first in option bodies; "
+         "elements that read no variable but change between dispatches: visited / visited_count / a host function that writes a "
+         "variable; in half of the programs the host registers a handler under `wait`): every completion schedule and choice path "
+         "enumerated by TLC and replayed, random walks trace-validated; judged: the handler invocation log of every call and the "
+         "results around pending commands; non-trivial = at least two commands with arguments",
+)
 
 
 def run(ctx):
@@ -248,6 +279,8 @@ def run(ctx):
         binding_selftest=selftest,
         samples=samples,
     )
+    import core_common as cc
+    cc.run_core_check(ctx, DISPATCH)
     ctx.assumptions += [
         "text glued to an {expression} without a blank is not generated (the property speaks of whitespace-separated words)",
         "names beginning with else/endif/endenum are not generated (those keyword tokens need no trailing blank in the grammar); "
